@@ -3,7 +3,7 @@ CLOCK eviction, checked on the cache itself with small watermarks.
 
 1. MC: TLC explores spec/MCCache (Cache.tla, 3 keys / 2 buckets / 2 watermark settings)
    exhaustively and checks MemExact, HitOnlyExactGen, RemoveThenMiss, EvictToLow,
-   SecondChance, TouchSetsRef (+ the design lemmas EvictNoOvershoot, UniqueKey, RemovedAbsent).
+   SecondChance, TouchSetsRef, RefOnlyByTouch (+ the design lemmas EvictNoOvershoot, UniqueKey, RemovedAbsent).
 2. impl -> spec: `fxv cache` drives the real ClockCache (real Arc<Record> generations, real
    watermarks of a few 64 KiB units) with one directed program and seeded random call
    sequences and records, after every call, the result and what the cache reports
@@ -24,7 +24,7 @@ import vcommon as v
 UNIT = 64 * 1024
 MC_ACTIONS = ("Insert", "Get", "Peek", "Remove", "Evict", "Clear", "SetWM", "Retire", "DropGen")
 TRACE_PROPS = ("MemExact", "HitOnlyExactGen", "RemoveThenMiss", "EvictToLow", "SecondChance",
-               "TouchSetsRef")
+               "TouchSetsRef", "RefOnlyByTouch")
 
 
 def directed_program(high):
